@@ -1,10 +1,7 @@
 (* C13 All built-in type parameters behave identically *)
 Load "coq/props/Hdr".
 From PM Require Import Small Exec.
-Lemma src_rt : rt_ok cfg. Proof. apply conds_rt_ok. vm_compute. reflexivity. Qed.
-Lemma src_tbl : tbl_ok cfg. Proof. apply conds_tbl_ok. vm_compute. reflexivity. Qed.
-Lemma src_cfg_ok : cfg_ok cfg. Proof. exact (rt_cfg _ src_rt). Qed.
-Ltac sc := sidecond_with src_rt src_tbl.
+Lemma src_cfg_ok : cfg_ok cfg. Proof. sc. Qed.
 (* String, Cow::Owned and SmartString run the same hook; the Cow::Borrowed hook is the same function *)
 Theorem C13_same_hook : forall t p, cow_borrowed_finish cfg t p = str_finish cfg t p.
 Proof. apply C13_finish. Qed.
